@@ -64,19 +64,19 @@ class Node:
         """
 
         uuid = UUID(bytes=proto_object.uuid)
-        node = None
         if ir is not None:
             cached_node = ir.get_by_uuid(uuid)
-            if isinstance(cached_node, cls):
-                node = cached_node
-            elif cached_node is not None:
+            if cached_node is not None:
+                # Every node is stored exactly once in a file, so a UUID that
+                # is already registered means the file carries it twice.
+                # (Reusing the registered node when it is of the same kind
+                # would move it to its second place and take its UUID out of
+                # the table meanwhile, letting a third carrier slip through.)
                 raise DeserializationError(
-                    "got %s for UUID %s but expected %s"
-                    % (type(cached_node).__name__, uuid, cls.__name__)
+                    "UUID %s is carried by more than one node (%s and %s)"
+                    % (uuid, type(cached_node).__name__, cls.__name__)
                 )
-        if node is None:
-            node = cls._decode_protobuf(proto_object, uuid, ir)
-        return node
+        return cls._decode_protobuf(proto_object, uuid, ir)
 
     def _to_protobuf(self) -> Message:
         """Get a Protobuf representation of ``self``.
